@@ -37,6 +37,13 @@ CLAIMED["C20"] = {
     "technique": "contract-based deductive verification: postconditions on the real conversion functions over symbolic magnitudes, exact rational comparison of the conversion factor with SI constants",
 }
 
+CLAIMED["C04"] = {
+    "text": "The real lsq_linear(model='gaussian') and everything it calls (parameter preparation, block-diagonal stacking, batching, scatter) are executed symbolically against the cvxpy solver contract. Obligations: terminates normally for every finite target (incl. below baseline); the cvxpy problem the code states has objective == sum over the batch rows of the weighted squared error of T(x)=K(Ax+baseline) and feasible set == the box (formulation identity); from 'x* is a minimiser of the stated problem', instantiated at the ghost point X*[row r := z], each returned row minimises its own weighted error over the box (z is the Skolem competitor); bounds hold; pred == T(X); in-gamut target => zero error. ReceptorEstimator.fit passes the registered state. All real A, B, lb, ub, W, K, baseline per enumerated shape.",
+    "design_ref": "DESIGN.md section 6 C04",
+    "note": A_COMMON + " cvxpy is an assumed contract: Problem.solve returns an exact global minimiser of the problem the code builds (the solver's numerical accuracy - 2e-2 / 2e-3 capture units in the property - is NOT decided; a bounded native cross-check against a CLARABEL oracle with the property's tolerances is labelled as such). is_dcp is answered by the real cvxpy on a concrete shadow instance. Shapes (nf,ns) up to (3,2)/(2,3) quick, (3,4) thorough; m<=3, batch sizes 1-2.",
+    "technique": "contract-based deductive verification: symbolic execution of the real fitting code against a solver contract, optimality transferred by instantiating the minimiser fact at ghost points, z3 NRA + exact polynomial identities",
+}
+
 NOT_APPLICABLE = {}
 
-FIX_COMMITS = ["b2d156a (np.trapz -> trapezoid)"]
+FIX_COMMITS = ["b2d156a (np.trapz -> trapezoid)", "1caec1a (negative fit targets no longer declared positive cvxpy parameters)"]
